@@ -150,6 +150,8 @@ def _run_unit(args):
             return "violation", None
 
         opts = dict(u.opts)
+        # no unit explores for ever: past the budget it is inconclusive (and probed), never silently passed
+        opts.setdefault("time_budget", 600 if tier == "quick" else 5400)
         loop_bound = opts.pop("loop_bound", 64)
         ex = Explorer(u.fn, unit=unit_name, on_counterexample=cex, **opts)
         ex.loop_bound = loop_bound
